@@ -180,7 +180,9 @@ static void wl_array_ops(struct ctx *c)
 static void wl_set_string(struct ctx *c)
 {
 	struct json_object *s = json_object_new_string(c->param & 1 ? "short" : "a somewhat longer initial string value"); char big[300]; int rc; size_t n = c->param < 2 ? 100 : 250;
-	memset(big, 'z', sizeof big); keep(c, s);
+	memset(big, 'z', sizeof big);
+	if (c->param >= 4) { json_object_set_string_len(s, big, 60); n = c->param == 4 ? 200 : 61; } /* already in a separate buffer: the SECOND grow is the one that fails */
+	keep(c, s);
 	ARM(c); rc = json_object_set_string_len(s, big, (int)n); DISARM(c);
 	if (rc != 1) { c->failed = 1; check_keeps(c); }
 	else { free(c->keepdump[0].b); memset(&c->keepdump[0], 0, sizeof c->keepdump[0]); dump_node(&c->keepdump[0], s, 0); res_obj(c, s); }
@@ -386,7 +388,7 @@ static void build_table(void)
 	for (i = 0; i < 10; i++) addw("construct", wl_construct, i, "construct");
 	{ static const int ms[] = {0, 1, 20, 21, 22, 23, 42, 43, 44, 45, 86, 87}; for (i = 0; i < 12; i++) addw("object_add", wl_object_add, ms[i], "add"); }
 	{ static const int ns[] = {0, 31, 32, 33, 63, 64, 65}; int j; for (i = 0; i < 7; i++) for (j = 0; j < 4; j++) if (!(ns[i] == 0 && j == 3)) addw("array_op", wl_array_ops, ns[i] * 4 + j, "add"); }
-	for (i = 0; i < 4; i++) addw("set_string", wl_set_string, i, "setstring");
+	for (i = 0; i < 6; i++) addw("set_string", wl_set_string, i, "setstring");
 	for (i = 0; i < NDOCS; i++) addw("deep_copy", wl_deep_copy, i, "copy");
 	addw("deep_copy_userdata", wl_userdata_copy, 0, "copy");
 	for (i = 0; i < NDOCS * NSERFLAGS; i++) if (i % 3 == 0 || i < NSERFLAGS * 2) addw("serialize", wl_serialize, i, "serialize");
